@@ -76,15 +76,18 @@ package main
 //@   ensures ciphertext {C09,C10}: implies(shouldEncrypt && encryptionKey != nil && len(encryptionKey) == 64, result == nonEncryptedValue || result == b64enc(daeadEnc(mkbytes(elems(encryptionKey), off(encryptionKey), len(encryptionKey)), sbytes(s), noBytes)))
 //@   ensures placeholder {C10}: implies(!(shouldEncrypt && encryptionKey != nil), result == nonEncryptedValue)
 
-// placeholders until the walkers are under contract (L2/L3): used by callers, body not verified yet
 //@ func RedactMongoLog
-//@   trusted
-//@   assigns GoMaps
-//@   allocs Arr:Val, Arr:Str, Arr:Int
+//@   safety C07
+//@   assigns GoMaps, Arr:Str, Arr:Val, Mem:OMap, decUseNumber
+//@   allocs Arr:Int, Arr:Slice, Mem:Str
+//@   ensures object-or-error: (result0 == nil) == (result1 != nil)
 
 //@ func MarshalOrdered
-//@   trusted
+//@   safety C07
+//@   assigns nothing
 //@   allocs Arr:Int
+//@   requires map: m != nil
+//@   loop 1 invariant el-valid: el == nil || elMap(el) == m
 
 // ---------------------------------------------------------------------------------------------
 // reader.go
@@ -97,7 +100,7 @@ package main
 //@ func processMongoLogStream
 //@   props C08
 //@   safety C07
-//@   assigns GoMaps, wfailOn, scanErr, outN, stderrN
+//@   assigns GoMaps, wfailOn, scanErr, outN, stderrN, decUseNumber, Arr:Str, Arr:Val, Mem:OMap
 //@   requires: !wfailOn[outWriter] && !scanErr
 //@   loop 1 invariant io-ok {C08}: !wfailOn[outWriter] && !scanErr
 //@   loop 1 invariant out-grows: outN >= old(outN) && wfailOn == store(old(wfailOn), outWriter, wfailOn[outWriter])
@@ -110,7 +113,7 @@ package main
 //@ func ProcessMongoLogFile
 //@   props C08
 //@   safety C07
-//@   assigns GoMaps, wfailOn, scanErr, openFail, outN, stderrN, envOps
+//@   assigns GoMaps, wfailOn, scanErr, openFail, outN, stderrN, envOps, decUseNumber, Arr:Str, Arr:Val, Mem:OMap
 //@   requires: !wfailOn[outWriter] && !scanErr && !openFail && fileReader != nil
 //@   requires key-in-use-is-the-persisted-one {C11}: implies(shouldEncrypt && encryptionKey != nil, havePersisted && persistedKey == mkbytes(elems(encryptionKey), off(encryptionKey), len(encryptionKey)))
 //@   ensures no-silent-failure {C08}: implies(result == nil, !wfailOn[outWriter] && !scanErr && !openFail)
@@ -121,7 +124,7 @@ package main
 //@ func ProcessMongoLogFileFromReader
 //@   props C08
 //@   safety C07
-//@   assigns GoMaps, wfailOn, scanErr, outN, stderrN, envOps
+//@   assigns GoMaps, wfailOn, scanErr, outN, stderrN, envOps, decUseNumber, Arr:Str, Arr:Val, Mem:OMap
 //@   requires: !wfailOn[outWriter] && !scanErr
 //@   requires key-in-use-is-the-persisted-one {C11}: implies(shouldEncrypt && encryptionKey != nil, havePersisted && persistedKey == mkbytes(elems(encryptionKey), off(encryptionKey), len(encryptionKey)))
 //@   sets envOps := envOps + 1
@@ -302,3 +305,145 @@ package main
 //@   at_call ProcessMongoLogFileFromReader wiring {C01}: redactedString == *replacement && G.redactNumbers == *redactNumbers && G.redactBooleans == *redactBooleans && G.redactIPs == *redactIPs && G.redactNamespaces == *redactNamespaces && G.eagerRedactionPaths == *eagerRedactionPaths && (G.redactedFieldsRegexp == nil) == (*redactedFieldsRegexp == "")
 //@   at_call ProcessMongoLogFile#1 pairing {C16}: filePath == file && fileName[outWriter] == sprintf2("%s.%d", VStr(*outputFile), VInt(i)) && file == files[i]
 //@   at_call ProcessMongoLogFile encrypt-wiring {C01,C10}: implies(enc && kf != "", shouldEncrypt && encryptionKey != nil)
+
+// ---------------------------------------------------------------------------------------------
+// package invariants (assumed at the entry of every function under contract; established by package
+// initialisation - see the table evaluation - and preserved because no function stores to these variables
+// and no Set has a table as its receiver)
+// ---------------------------------------------------------------------------------------------
+
+//@ func package
+//@   requires: tableTop <= heapTop
+//@   requires: isTable(AggregationOperators) && isTable(CoreOperators) && isTable(OperatorMapDefs) && isTable(geoJSON) && isTable(SearchOperators) && isTable(SearchAggregationOperators)
+//@   requires: emailRegex != nil
+//@   requires: len(TopLevelSearchOperators) == 4
+
+// ---------------------------------------------------------------------------------------------
+// safety sweep (C07): every function reachable from processMongoLogStream
+// ---------------------------------------------------------------------------------------------
+
+//@ func isInSearchStage
+//@   safety C07
+//@   assigns nothing
+//@   loop 1 invariant el-valid: el == nil || elMap(el) == m
+
+//@ func RemoveElementAfter
+//@   safety C07
+//@   assigns Arr:Str
+//@   ensures length: len(result) <= len(slice) && len(result) >= len(slice) - 1 && len(result) >= 0
+
+//@ func RemoveElementsBeforeIncluding
+//@   safety C07
+//@   assigns nothing
+//@   ensures length: len(result) == 0 || len(result) < len(slice)
+
+//@ func traverseMapPath
+//@   safety C07
+//@   assigns Arr:Str
+//@   requires table: operatorMap != nil && isTable(operatorMap)
+//@   loop 1 invariant table-walk: tableVal(current)
+//@   ensures table-value: implies(result1, tableVal(result0) && result0 != nil)
+//@   ensures nil-when-absent: implies(!result1, result0 == nil)
+
+//@ func getOp
+//@   safety C07
+//@   assigns Arr:Str
+//@   requires nonempty-path: len(keyPath) >= 1
+//@   ensures table-value: implies(result1, tableVal(result0))
+//@   ensures nil-when-absent: implies(!result1, result0 == nil)
+
+//@ func reMatchesAnyKeyInPath
+//@   safety C07
+//@   assigns nothing
+
+//@ func IsEmail
+//@   safety C07
+//@   assigns nothing
+
+//@ func isRedactableFieldPatternInArray
+//@   safety C07
+//@   assigns nothing
+
+//@ func redactScalarValue
+//@   safety C07
+//@   assigns Arr:Str, GoMaps
+//@   allocs Arr:Int
+//@   requires nonempty-path: len(keyPath) >= 1
+
+//@ func parseValue
+//@   safety C07
+//@   assigns nothing
+//@   allocs Mem:OMap, Arr:Val
+//@   requires decoder: dec != nil
+//@   assume_after (*encoding/json.Decoder).Token#2 A-JSON-key-token-is-a-string: result1 != nil || isStr(result0)
+//@   loop 1 invariant frame: unchangedBelow("Mem:OMap") && unchangedBelow("Arr:Val") && m > old(heapTop) && m <= heapTop && !isTable(m)
+//@   loop 2 invariant frame: unchangedBelow("Mem:OMap") && unchangedBelow("Arr:Val") && (base(arr) == 0 || base(arr) > old(heapTop))
+//@   ensures fresh-map: implies(isMap(result0), mapOf(result0) > old(heapTop) && mapOf(result0) <= heapTop && !isTable(mapOf(result0)))
+
+//@ func UnmarshalOrdered
+//@   safety C07
+//@   assigns decUseNumber
+//@   allocs Mem:OMap, Arr:Val, Arr:Int
+//@   ensures object-or-error: (result0 == nil) == (result1 != nil)
+//@   ensures fresh-map: implies(result1 == nil, result0 > old(heapTop) && result0 <= heapTop && !isTable(result0))
+
+//@ func redactArrayValuesWithKey
+//@   safety C07
+//@   assigns Arr:Str, Arr:Val, GoMaps
+//@   allocs Arr:Int, Mem:OMap
+//@   ensures same-slice: result == arr
+
+//@ func redactArrayValues
+//@   safety C07
+//@   assigns Arr:Str, Arr:Val, GoMaps
+//@   allocs Arr:Int, Mem:OMap
+//@   ensures same-slice: result == arr
+
+//@ func redactQueryValues
+//@   safety C07
+//@   assigns Arr:Str, Arr:Val, GoMaps
+//@   allocs Arr:Int, Mem:OMap
+//@   requires map: obj != nil
+//@   loop 1 invariant frame: unchangedBelow("Mem:OMap") && newObj > old(heapTop) && newObj <= heapTop && !isTable(newObj) && (el == nil || elMap(el) == obj)
+//@   ensures fresh-map: result > old(heapTop) && result <= heapTop && !isTable(result)
+
+//@ func augmentOp
+//@   safety C07
+//@   assigns nothing
+//@   allocs Mem:OMap
+//@   requires maps: op != nil && v != nil
+//@   loop 1 invariant frame: unchangedBelow("Mem:OMap") && augmentedOp > old(heapTop) && augmentedOp <= heapTop && !isTable(augmentedOp) && (el == nil || elMap(el) == op)
+//@   loop 2 invariant frame: unchangedBelow("Mem:OMap") && augmentedOp > old(heapTop) && augmentedOp <= heapTop && !isTable(augmentedOp) && (el == nil || elMap(el) == augmentedOp)
+
+//@ func redactPipelineStage
+//@   safety C07
+//@   assigns Arr:Str, Arr:Val, GoMaps
+//@   allocs Arr:Int, Mem:OMap
+//@   loop 1 invariant frame: unchangedBelow("Mem:OMap") && newMap > old(heapTop) && newMap <= heapTop && !isTable(newMap)
+//@   loop 2 invariant frame: unchangedBelow("Mem:OMap") && newPipelineMap > old(heapTop) && newPipelineMap <= heapTop && !isTable(newPipelineMap)
+//@   loop 3 invariant frame: unchangedBelow("Mem:OMap")
+//@   loop 4 invariant frame: unchangedBelow("Mem:OMap")
+//@   loop 5 invariant frame: unchangedBelow("Mem:OMap") && newSubMap > old(heapTop) && newSubMap <= heapTop && !isTable(newSubMap)
+//@   loop 6 invariant frame: unchangedBelow("Mem:OMap")
+
+//@ func redactCommand
+//@   safety C07
+//@   assigns Arr:Str, Arr:Val, GoMaps, Mem:OMap
+//@   allocs Arr:Int
+//@   requires not-a-table: !isTable(cmd)
+
+//@ func redactNamespace
+//@   safety C07
+//@   assigns GoMaps, Mem:OMap
+//@   allocs Arr:Int, Arr:Str, Arr:Val
+//@   requires map: cmd != nil && !isTable(cmd)
+
+//@ func redactFieldNamesFromPlanSummary
+//@   safety C07
+//@   assigns GoMaps, Arr:Str
+//@   allocs Arr:Int, Arr:Str, Arr:Val, Arr:Slice
+
+//@ func ParsePlanSummary
+//@   safety C07
+//@   assigns GoMaps, Arr:Str
+//@   allocs Arr:Str, Arr:Slice
